@@ -1,6 +1,136 @@
 import YaegiVerif.Common.Sexp
-/- Line-protocol front end for C16 (glue). Placeholder until the property's model exists. -/
+import YaegiVerif.Common.Str
+import YaegiVerif.Model.Src
+import YaegiVerif.Spec.GoImport
+import YaegiVerif.Generated.C16
+/- Line-protocol front end for C16 (glue, not a proof obligation).
+   eff  "root" "path"                       → y=<string>
+   prev FS "rootPath" "root"                → y=ok:<string> | y=err
+   pkgdir FS "gopath" "root" "path"         → y=found:<dir>:<rpath> | notfound | err | fuel   g=<dir> | none
+   imports FS "gopath" "wd" "name" (PKG…) "maindir" (import…) (go-import…)
+                                            → y=ok:<dir,dir,…> | cycle:<path> | notfound:<path> | err | fuel
+                                              g=ok:<dir,…> | cycle | notfound:<path>
+   FS  = (mapfs|disk (dirs…) (files…))
+   PKG = ("dir" "import"…)     imports of the package in that directory, in source order
+   Strings are Go path strings; the model works on their split form. -/
 namespace YaegiVerif.Driver.C16
-open YaegiVerif
-def handle (_args : List Sexp) : String := "unimplemented"
+open YaegiVerif YaegiVerif.Src
+
+def parseP (s : String) : Path := (Str.splitOn '/' s.toList).map String.ofList
+def renderP (p : Path) : String := "/".intercalate p
+def q (s : String) : String := Sexp.quote s
+
+def parseFS (s : Sexp) : Option FS :=
+  match s with
+  | .list [.atom k, ds, fs] => do
+    let ds ← ds.atoms?
+    let fs ← fs.atoms?
+    some { dirs := ds.map parseP, files := fs.map parseP, mapfs := k == "mapfs" }
+  | _ => none
+
+def words : Words := Generated.C16.words
+def book : Book := bookOf Generated.C16.importOrder
+
+def showPrev : PrevR → String
+  | .ok p => "ok:" ++ q (renderP p)
+  | .err => "err"
+
+def showDir : DirR → String
+  | .found d r => "found:" ++ q (renderP d) ++ ":" ++ q (renderP r)
+  | .notFound => "notfound"
+  | .err => "err"
+  | .fuel => "fuel"
+
+/-- elements below GOPATH/src of a relative root string ("" ↦ []) -/
+def relElems (p : Path) : List String := if isEmptyS p then [] else p
+
+def parsePkgs (xs : List Sexp) : Option (List (String × List String)) :=
+  xs.mapM fun x => match x.atoms? with
+    | some (d :: imps) => some (d, imps)
+    | _ => none
+
+/-- Go: resolution of an import from the importing directory `d` (a path string in split form) -/
+def goResolve (f : FS) (gs : Path) (d : Path) (path : String) : Option Path :=
+  let P := parseP path
+  if isPathRelative P then some (join [d, P])
+  else if P.dropLast.contains "vendor" then none
+  else if gs.isPrefixOf d && d.length > gs.length then Spec.resolve f gs (d.drop gs.length) P
+  else if Spec.isDir f (gs ++ P) then some (gs ++ P) else none
+
+/-- the Go side of a whole program: depth-first over the import graph keyed by *directory*,
+    each directory once, a directory met again while in progress is a cycle -/
+partial def goImports (f : FS) (gs : Path) (pkgs : List (String × List String))
+    (done prog : List String) (importer : Path) (path : String) :
+    Except String (List String × List String) :=
+  match goResolve f gs importer path with
+  | none => .error (if (parseP path).dropLast.contains "vendor" && !isPathRelative (parseP path) then "notallowed" else "notfound:" ++ q path)
+  | some d =>
+    let ds := renderP d
+    if done.contains ds then .ok (done, [])
+    else if prog.contains ds then .error "cycle"
+    else
+      match pkgs.lookup ds with
+      | none => .error ("notfound:" ++ q path)
+      | some imps =>
+        let rec go (done : List String) (tr : List String) : List String → Except String (List String × List String)
+          | [] => .ok (done, tr)
+          | i :: rest => match goImports f gs pkgs done (ds :: prog) d i with
+            | .error e => .error e
+            | .ok (done, t) => go done (tr ++ t) rest
+        match go done [] imps with
+        | .error e => .error e
+        | .ok (done, tr) => .ok (ds :: done, tr ++ [ds])
+
+def handle (args : List Sexp) : String :=
+  match args with
+  | [.atom "eff", .atom root, .atom path] =>
+    "y=" ++ q (renderP (effectivePkg (parseP root) (parseP path)))
+  | [.atom "prev", fs, .atom rootPath, .atom root] =>
+    (match parseFS fs with
+     | some f => "y=" ++ showPrev (previousRoot words f (parseP rootPath) (parseP root))
+     | none => "bad-op")
+  | [.atom "pkgdir", fs, .atom gopath, .atom root, .atom path] =>
+    (match parseFS fs with
+     | some f =>
+       let gp := parseP gopath
+       let r := parseP root
+       let y := pkgDir words f gp (defaultFuel r) r (parseP path)
+       let gs := join [gp, ["src"]]
+       let g := match Spec.resolve f gs (relElems r) (parseP path) with
+         | some d => q (renderP d)
+         | none => "none"
+       "y=" ++ showDir y ++ " g=" ++ g
+     | none => "bad-op")
+  | [.atom "imports", fs, .atom gopath, .atom wd, .atom name, .list pkgs, .atom maindir, imps, gimps] =>
+    (match parseFS fs, parsePkgs pkgs, imps.atoms?, gimps.atoms? with
+     | some f, some pk, some imps, some gimps =>
+       let gp := parseP gopath
+       let gs := join [gp, ["src"]]
+       let res : Resolver := fun rp ip =>
+         match resolveImport words f gp (parseP wd) (parseP name) (parseP rp) (parseP ip) with
+         | some (d, r') => some (renderP d, renderP r')
+         | none => none
+       let hasGo := fun d => (pk.lookup d).isSome
+       let gta := fun (i : String) => if Generated.C16.gtaCollapse then renderP (gtaImportPath (parseP i)) else i
+       let importsOf := fun d => ((pk.lookup d).getD []).map gta
+       let imps := imps.map gta
+       let sub := fun rp ip => renderP (effectivePkg (parseP rp) (parseP ip))
+       let st0 : ImpState := { srcPkg := [], rdir := [] }
+       let y := match importAllWith (fun s i => importSrc book res hasGo importsOf sub (2 * pk.length + 8) s words.mainID i) st0 imps with
+         | .ok (_, tr) => "ok:" ++ q (",".intercalate (tr.map (·.2)))
+         | .error (.cycle p) => "cycle:" ++ q p
+         | .error (.notFound p) => "notfound:" ++ q p
+         | .error (.noGoFiles d) => "notfound:" ++ q d
+         | .error .other => "err"
+         | .error .fuel => "fuel"
+       let md := parseP maindir
+       let rec goAll (done tr : List String) : List String → String
+         | [] => "ok:" ++ q (",".intercalate tr)
+         | i :: rest => match goImports f gs pk done [] md i with
+           | .error e => e
+           | .ok (done, t) => goAll done (tr ++ t) rest
+       "y=" ++ y ++ " g=" ++ goAll [] [] gimps
+     | _, _, _, _ => "bad-op")
+  | _ => "bad-op"
+
 end YaegiVerif.Driver.C16
